@@ -35,6 +35,7 @@ class Sim:
         self.third_added = set()
         self.dups = 0
         self.errs_sent = 0
+        self.badhex = 0
         self.gets = [dict() for _ in modes]
 
     def close_world(self):
@@ -116,6 +117,9 @@ class Sim:
                         acts.append(("dup", X, k))
                 if "srv_error" in self.adv and self.errs_sent < 1 and c.conn.side is not None:
                     acts.append(("srv_error", X))
+                if "badhex" in self.adv and self.badhex < 1 and "open" in c.conn.log:
+                    # (may already be in flight when the client sends its `close`)
+                    acts.append(("badhex", X))
         if "third" in self.adv:
             for mid in sorted(self.world.server.mailboxes):
                 for ph in ("pake", "version", "0"):
@@ -197,6 +201,10 @@ class Sim:
             self.dups += 1
             s, ph, body = self.mailbox_msgs(c)[act[2]]
             c.rx({"type": "message", "side": s, "phase": ph, "body": body})
+        elif kind == "badhex":
+            # a mailbox participant adds a message whose body is not hex: the client's handler raises (internal error path)
+            self.badhex += 1
+            c.rx({"type": "message", "side": THIRD, "phase": "9", "body": "not-hex!"})
         elif kind == "srv_error":
             self.errs_sent += 1
             c.rx({"type": "error", "error": "server says no", "orig": {"type": "x"}})
